@@ -45,7 +45,7 @@ type Case struct {
 
 var chans = []string{"a/", "a/b/", "a/b/c/", "x/", "a/c/"}
 var filters = []string{"a/", "a/", "a/b/", "a/+/", "x/", "a/b/c/", "+/", "", "", "a/c/"}
-var pubKeys = []string{"rws", "rws", "rws", "rws", "rwsl", "ws", "ws", "rw", "w"}
+var pubKeys = []string{"rws", "rws", "rws", "rws", "rwsl", "ws", "ws", "rw", "w", "rs", "sl"} // rs / sl: no write permission - the publish is refused and must leave nothing behind
 var subKeys = []string{"rl", "rl", "rl", "rl", "rwsl", "rwl", "r", "rs"}
 
 func genCase(t *rapid.T) Case {
@@ -60,6 +60,9 @@ func genCase(t *rapid.T) Case {
 			}
 			op.Ch = rapid.SampledFrom(chans).Draw(t, "ch")
 			op.Key = rapid.SampledFrom(pubKeys).Draw(t, "key")
+			if op.K == "linkpub" && !strings.Contains(op.Key, "w") {
+				op.Key = "rws"
+			}
 			op.Retain = rapid.IntRange(0, 2).Draw(t, "retain") == 0
 			op.TTL = rapid.SampledFrom([]string{"", "0", "5", "3600", "3600", "3600", "86400", "86400", "4294967294", "x", "007"}).Draw(t, "ttl")
 			op.Size = rapid.SampledFrom([]int{0, 1, 4, 4, 4, 200}).Draw(t, "size")
@@ -75,7 +78,7 @@ func genCase(t *rapid.T) Case {
 		default:
 			op.K = "will"
 			op.Ch = rapid.SampledFrom(chans).Draw(t, "ch")
-			op.Key = rapid.SampledFrom(pubKeys).Draw(t, "key")
+			op.Key = rapid.SampledFrom(pubKeys[:9]).Draw(t, "key") // wills: write-capable keys only (C08 covers wills without write permission)
 			op.Retain = rapid.Bool().Draw(t, "retain")
 			op.End = rapid.SampledFrom([]string{"close", "disconnect"}).Draw(t, "end")
 		}
@@ -221,6 +224,25 @@ func run(c Case) vkit.Result {
 			own, err := cl.Publish(uint16(step+1), topic, payload, op.Retain)
 			if err != nil {
 				return fail("step %d: publish: %v", step, err)
+			}
+			if !strings.Contains(op.Key, "w") && op.K == "pub" {
+				// refused: an error reply, nothing delivered, nothing stored
+				if len(own) != 1 {
+					return fail("step %d: publish with a key without write permission: %d replies, expected one error", step, len(own))
+				}
+				if st, _, isErr := vkit.IsErrorReply(own[0]); !isErr || st != 401 {
+					return fail("step %d: publish with a key without write permission was answered on %q", step, own[0].TopicName)
+				}
+				for i, o := range clients {
+					if i == op.C {
+						continue
+					}
+					if got, err := o.Barrier(); err != nil || len(got) != 0 {
+						return fail("step %d: a refused publish was delivered to client %d (%d packets, %v)", step, i, len(got), err)
+					}
+				}
+				labels["publish-refused-no-write-permission"] = true
+				continue
 			}
 			wantOwn := 0
 			for f := range subs[op.C] {
